@@ -451,3 +451,7 @@ mod tests {
         assert!(speed > 10.0);
     }
 }
+
+#[cfg(vpncloud_verif)]
+#[path = "/verif/harness/hooks/core.rs"]
+pub mod verif;
